@@ -10,6 +10,7 @@ export VERIF_REPO="$REPO"
 for d in seeded/*/; do
   id=$(basename "$d"); prop=${id%%-*}
   [ -n "${1:-}" ] && [[ "$id" != $1* ]] && continue
+  [ -n "${ONLY:-}" ] && ! [[ "$id" =~ $ONLY ]] && continue
   case "$id" in C06-7|C07-7) prop=C20;; esac
   if ! git -C "$REPO" apply --check "$ROOT/${d}patch.diff" 2>/dev/null; then echo "$id NOAPPLY"; continue; fi
   git -C "$REPO" apply "$ROOT/${d}patch.diff"
